@@ -85,6 +85,10 @@ NOTES = {  # seed -> (after, what was strengthened)
  "C17f_m2": ("caught (C17 correspondence + oracle)", "Norm.v extended with prefixItems (items_congruence, union_members_congruence); rewrites inside tuple arrays, duplicated members in equivalent spellings (also exposed finding prefix_items_grow_on_rebuild)"),
  "C18f_m1": ("caught (C18 oracle)", "twin names (same python name before de-confliction) as siblings of a model refined through allOf, 32 combinations, neutral twin control"),
  "C20f_m2": ("caught (C20 oracle; C03 caught it at once)", "body position with all four media-type kinds, one component shared by multipart / json / form bodies and responses, captured requests compared modulo the multipart boundary"),
+ "C01g_m1": ("caught (C01 compile + import)", "two $ref allOf parents whose property names collide only after snake-casing"),
+ "C03g_m2": ("caught (C03 oracle: exactly one request)", "every third call is answered by a redirect (307 + Location): the generated client must not follow it"),
+ "C05g_m1": ("caught (C05 stage A + stage C)", "probe fills EVERY string-valued field the pydantic schema accepts (312 slots, incl. fields the generator ignores, in the configurations where a fallback would pick them up); site table keyed by field@position"),
+ "C06g_m2": ("caught (C06 stage A gen_ctype_dispatch + B + C)", "document-SOURCE family: --url against a local HTTP server (status x Content-Type x URL shape x body), --path to directories / missing / binary files; loader choice tied to Norm.content_type_of (also exposed finding source_path_oserror, since repaired: 1071adc)"),
  "C19c_m1": ("caught (C19 oracle + hook_cwd correspondence)", "post hooks: a marker hook that rewrites *.py below its working directory, all four flavours, with sentinel files around the output directory; Fs.hook_cwd"),
  "C10_m1": ("caught (C10 oracle, C02 correspondence)", "falsy-but-present values (0, \"\", false, {}, []) in the C02 atlas and the C10 grid"),
  "C10_m2": ("caught (C10 oracle; C15 caught it at once)", "allOf-refined required properties in the C10 grid"),
@@ -116,7 +120,7 @@ Each change was produced by a fresh sub-agent that saw only the property text an
 was re-verified by the coordinator (demo exits 0 on the clean tree and 1 with the patch; the pinned suite has the same pass/fail
 set with the patch). Seeds `C??b_*` are a SECOND generation for the same property: their authors were told which earlier changes
 to avoid, so they measure how the strengthened checks generalise; seeds `C??c_*` are a THIRD generation (told to avoid the earlier
-four) and `C??d_*` a FOURTH `C??e_*` a FIFTH and `C??f_*` a SIXTH (each told to avoid all earlier ones). "first run" = the property's own quick check as it stood when
+four) and `C??d_*` a FOURTH `C??e_*` a FIFTH, `C??f_*` a SIXTH and `C??g_*` a SEVENTH (each told to avoid all earlier ones). "first run" = the property's own quick check as it stood when
 the change arrived ({c} of {n} caught); every miss led to a strengthening of generators, oracles or models, never to a special case
 for the seed. After strengthening all {n} are caught by the property's own quick check (re-tested with harness/seedtest_iso.py on isolated copies).
 
